@@ -5,6 +5,7 @@ import OpusProofs.SilkParamsDec
 import OpusProofs.SilkParamsRangeNlsf2a
 import OpusProofs.SilkParamsRangeBridge
 import OpusProofs.SilkParamsRangeInvGain
+import OpusProofs.SilkSynthIdxCore
 /-
   C18 — SILK side information always dequantises to stable, in-range parameters.
 
@@ -514,6 +515,76 @@ theorem nlsf2a_reflection_bounded (nlsf : List Int) (hd : nlsf.length = 10 ∨ n
 
 example : lpcReflectionQ24 [10411, -10758, 10164, -11137, 7494, -3318, 2083, -869, -92, 102] =
     [417792, 685515, -2921403, 386465, -4601996, 11415106, -1973817, 4817321, -16111762, 16681179] := by
+  decide +kernel
+
+/-! ## Index-safety bridge: from C18's parameter ranges to memory safety of the SILK synthesis
+
+  `OpusModel/SilkSynthIdx.lean` models ONLY the index / extent arithmetic of the synthesis interior
+  (C01: "index arithmetic inside silk_Decode … not covered by any theorem"): for each C function the
+  list of array accesses `(array, [lo, hi), read/write)` in program order.  TRUSTED READING: the
+  index expressions are hand-transcribed (file:line cited at every access in the model file); the
+  tie does not go through that reading — harness/c18_synthidx*.c compiles the repo's own
+  decode_core.c / LPC_analysis_filter.c with compiler-inserted access callbacks
+  (`-fsanitize=thread` code generation + recording `__tsan_read/write` stubs, work arrays moved to
+  guarded heap blocks through the `ALLOC` macro) and compares the recorded min/max index read and
+  written per array with the model, including lags outside the legal range, where the model
+  predicts the out-of-bounds index or the firing `celt_assert` and the recorder observes it. -/
+
+open Opus.SilkSynthIdx in
+/-- `silk_decode_core` (silk/decode_core.c:38-243) is index-safe on C18's post-conditions.  For every
+    configuration `silk_decoder_set_fs` can establish (`fs_kHz ∈ {8,12,16}`, `nb_subfr ∈ {2,4}`; hence
+    `LPC_order`, `ltp_mem_length = 20·fs_kHz`, `subfr_length = 5·fs_kHz`, `frame_length`), every signal
+    type, quantisation offset type, interpolation flag, loss count, previous signal type and every
+    pattern of gain changes: IF the pitch lags of a voiced frame lie in `[2·fs_kHz, 18·fs_kHz]` (what
+    `pitch_in_range` proves of `silk_decode_pitch` for EVERY lag / contour index) and — for the branch
+    "avoid abrupt transition from voiced PLC to unvoiced normal decoding", which substitutes
+    `psDec->lagPrev` — `lagPrev` lies in the same range whenever that branch can be taken (`lossCnt ≠ 0`,
+    previous frame voiced), THEN no `celt_assert` fires (`start_idx > 0`; `d ≥ 6`, `d` even, `d ≤ len` of
+    `silk_LPC_analysis_filter`) and every read and write index of `sLTP` (`ltp_mem_length`), `sLTP_Q15`
+    (`ltp_mem_length + frame_length`), `res_Q14`, `sLPC_Q14` (`subfr_length + MAX_LPC_ORDER`),
+    `psDec->exc_Q14` (320), `psDec->outBuf` (480, incl. the k = 2 copy to `outBuf[ltp_mem_length …]` and the
+    re-whitening window), `sLPC_Q14_buf`, `PredCoef_Q12`, `LTPCoef_Q14`, `Gains_Q16`, `pitchL`, `xq`,
+    `pulses`, `A_Q12_tmp` and the offset table lies inside the array's declared / allocated size (sizes of
+    struct members regenerated with `sizeof`). -/
+theorem decode_core_indices_in_bounds (x : CoreIn) (h : CoreOk x) :
+    (coreAccesses x).2 = false ∧ ∀ a ∈ (coreAccesses x).1, a.inBounds x.cfg :=
+  coreAccesses_ok x h
+
+open Opus.SilkSynthIdx in
+/- a 20 ms WB voiced frame with NLSF interpolation, lags at both ends of the legal range: 98 accesses,
+   the k = 2 re-whitening reaches outBuf[479] and sLTP_Q15[639], the last elements -/
+example : (coreAccesses (voicedCoreIn 16 4 [288, 290, 32, 40] 1 0 0 100 true [true, false, true, false]
+      [true, false, true, false])).1.length = 98 ∧
+    extentsStr (coreAccesses (voicedCoreIn 16 4 [288, 290, 32, 40] 1 0 0 100 true [true, false, true, false]
+      [true, false, true, false])).1 [.sLTP, .sLTP_Q15, .outBuf, .xq] =
+      "sLTP:r=30..319,w=14..319 sLTP_Q15:r=30..601,w=30..639 outBuf:r=14..479,w=320..479 xq:r=0..159,w=0..319" := by
+  decide +kernel
+
+open Opus.SilkSynthIdx in
+/-- The hypothesis on the lags is what `silk_decode_pitch` delivers: composed with the pitch decoder —
+    ANY lag index (also one driven out of range by delta coding), any contour index inside the codebook —
+    a voiced frame is index-safe, whatever the remaining inputs. -/
+theorem decode_core_safe_after_decode_pitch (fs : Int) (nb : Nat) (lagIndex contour : Int) (lags : List Int)
+    (hfs : fs = 8 ∨ fs = 12 ∨ fs = 16) (hnb : nb = 2 ∨ nb = 4) (hc0 : 0 ≤ contour)
+    (hc1 : ∀ cb, pitchCodebook fs nb = .ok cb → contour < (cb.2 : Int))
+    (hl : decodePitch lagIndex contour fs nb = .ok lags)
+    (qoff lossCnt prevSig lagPrev : Int) (interp : Bool) (gd ad : List Bool) (hq : 0 ≤ qoff ∧ qoff ≤ 1) :
+    (coreAccesses (voicedCoreIn fs nb lags qoff lossCnt prevSig lagPrev interp gd ad)).2 = false ∧
+    ∀ a ∈ (coreAccesses (voicedCoreIn fs nb lags qoff lossCnt prevSig lagPrev interp gd ad)).1,
+      a.inBounds (cfgOf fs nb) := by
+  obtain ⟨lags', hl', hlen, hr⟩ := pitch_in_range lagIndex contour fs nb hfs hnb hc0 hc1
+  rw [hl] at hl'
+  cases hl'
+  exact coreAccesses_ok _ (voicedCoreIn_ok fs nb lags qoff lossCnt prevSig lagPrev interp gd ad hfs hnb hq hlen hr)
+
+open Opus.SilkSynthIdx in
+/- … and the hypothesis is needed: with a lag just outside the range the model itself exhibits the violation
+   (16 kHz: lag 302 → `celt_assert( start_idx > 0 )` fires, 301 is the last lag that passes; lag 1 → `sLTP_Q15[640]` is read, one past the
+   end), exactly the cases the instrumented C code shows in the tie -/
+example : (coreAccesses (voicedCoreIn 16 4 [302, 302, 302, 302] 0 0 0 100 false [] [])).2 = true ∧
+    (coreAccesses (voicedCoreIn 16 4 [301, 301, 301, 301] 0 0 0 100 false [] [])).2 = false ∧
+    extentsStr (coreAccesses (voicedCoreIn 16 4 [1, 1, 1, 1] 0 0 0 100 false [] [])).1 [.sLTP_Q15] =
+      "sLTP_Q15:r=317..640,w=317..639" ∧ Arr.size (cfgOf 16 4) .sLTP_Q15 = 640 := by
   decide +kernel
 
 end OpusProps.C18
